@@ -11,6 +11,7 @@ import ErrModel.Proto
 import ErrModel.ProtoEnc
 import ErrModel.ProtoPay
 import ErrModel.ProtoFull
+import ErrModel.ProtoNest
 /-
   Observation streams printed by the driver (and, identically, by the harness
   from the real code).
@@ -246,6 +247,7 @@ def obsCase (e : Option Err) (refs : List (Option Err)) (trim : List Str := []) 
       pList ["detbytes", pStrs (detBytesOf (encode Full vfStub e))],
       pList ["wirebytes", pStr (Proto.serW (Proto.core (encode Full vfStub e)))],
       pList ["paybytes", pList (payBytesOf (encode Full vfStub e))],
+      pList ["allbytes", (if Proto.modelled (encode Full vfStub e) then pStr (Proto.serG (Proto.fullG (encode Full vfStub e))) else "(skip)")],
       pList ["fullbytes", (if flatPayloads (encode Full vfStub e) then pStr (Proto.serF (Proto.full (encode Full vfStub e))) else "(skip)")],
       pList ["h1tree", pOpt pTree h1],
       pList ["h1enc", pOpt (fun x => pEnc (encode Full vfStub x)) h1],
